@@ -1224,3 +1224,34 @@ PROPS["C13"]["partial_gap"] += (' UPDATE (C13Visits.v): the extraction of `visit
     'timing bounds timing_ok C O; C and O are not derived in closed form for a ring (only the silent-bus time-out step of C is: '
     'C13_reply_wait_expires) - a reply and its reception, synchronisation pauses, poll latency, GAP poll and token hand-over depend on the other '
     'stations and the medium.')
+# ---- agent fa, follow-up: C06_lost_token_recovers_alone from every state (coq/Proofs/C06Recover.v) ----
+PROPS["C06"]["level_text"] = PROPS["C06"]["level_text"].replace(
+    'Retry and removal of a silent successor are C11_retry_discipline.',
+    'C06_lost_token_recovers_alone (FULL single-station recovery, Proofs/C06Recover.v): a lone online station on a silent bus (receive buffer empty in '
+    'every poll, PHY busy at most while the station itself predicts the end of its own transmission), from EVERY state satisfying the representation '
+    'invariant Rep of C05 - PassToken / CheckTokenPass with a stale ring view, AwaitStatusResponse, AwaitDataResponse, UseToken, ClaimToken, a status '
+    'request pending, any total applications - under ANY poll schedule with gaps <= P: no poll panics and the station is in a token-holding state '
+    '(it has claimed or kept the token) after some poll at or before recover_bound = max(t1, L + Tw + P) + k * (Ttx + Tw + P), where t1 is the first '
+    'poll, L the last recorded bus activity, and for the idle states Tw = token-lost time-out of TS, Ttx = 6-byte telegram, k <= 2; for the other '
+    'states Tw = Tslot, Ttx = token telegram, k <= 3 * (LAS entries other than TS) + 5 <= 3 * 128 + 5 (three passes per stale entry, the removal with '
+    'the third expiry; ranking over (stale entries, attempt); between two progress polls the station provably only waits). '
+    'C06_lost_token_recovers_alone_by / C06_recover_bound_explicit / C06_recover_example give the "schedule long enough" form, a closed form and a '
+    'computed instance. Retry and removal of a silent successor are C11_retry_discipline.')
+PROPS["C06"]["partial_gap"] = PROPS["C06"]["partial_gap"].replace(
+    ' Also open in the single-station half: C06_lost_token_recovers_alone for the states PassToken / CheckTokenPass (working off a stale ring view: each '
+    'step is described by C11_retry_discipline, the bound over the whole LAS is missing) and with a status request pending.',
+    ' The single-station half is complete: C06_lost_token_recovers_alone covers every Rep state; its only side condition is that a station that has '
+    'recorded no bus activity at all is in state Offline (true of every reachable state: invariant ti_some of Proofs/FdlOracleSound3.v), and "silent" '
+    'means an empty receive buffer in every poll (stale bytes in the buffer are garbage / telegrams, covered by the one-step theorems only).')
+
+# ---- agent fa, follow-up: oracle soundness of the C11 liveness rule (coq/Proofs/C11Liveness.v) ----
+PROPS["C11"]["level_note"] += (' C11_supervision_liveness_sound (Proofs/C11Liveness.v): the liveness rule supervision_never_ends is never '
+    'reported on a model transcript either (all input histories, app_sends_data); with it C11_oracle_sound: NO rule of C11 is reported on a '
+    'transcript of the model. The proof keeps an exact account of last_bus_activity / pending_bytes against the monitor (l_ref, l_txend, l_spur) '
+    'while the pass is supervised: established by every poll that transmits and ends in CheckTokenPass, kept by every poll that stays there; the '
+    "monitor's expiry then implies the model's slot_expired and C11_check_pass_poll forces the retry / removal in that poll.")
+PROPS["C11"]["partial_gap"] = PROPS["C11"]["partial_gap"].replace(
+    ' Oracle soundness: the liveness rule supervision_never_ends is NOT yet covered.',
+    ' Oracle soundness: complete for C11 (C11_oracle_sound), the liveness rule supervision_never_ends included.')
+PROPS["C06"]["level_note"] += (' C06_lost_token_recovers_alone uses C05 (no poll panics from a Rep state), FdlOracleSound2.poll_bk (what a poll does to '
+    'last_bus_activity) and FdlOracleSound9 (slot time covers the synchronisation pause).')
